@@ -103,9 +103,11 @@ static void m_reset(void) {
     }
     rb_live = 1;
     base = rb.allocation;
-    if (!galloc_is_live(base) || galloc_size_of(base) != S) {
-        fprintf(stderr, "ring storage is not the %zu-byte block asked for\n", S);
-        _exit(2);
+    /* the storage is a live block of the allocator handed in that holds at least S bytes (an implementation may pad it);
+     * the ring itself is the S bytes [allocation, allocation_end) - what the public struct says, and all the oracle uses */
+    if (!galloc_is_live(base) || galloc_size_of(base) < S || (size_t)(rb.allocation_end - rb.allocation) != S) {
+        esx_fail("storage", "aws_ring_buffer_init(%zu): storage block of %zu bytes, allocation_end - allocation = %zu", S, galloc_is_live(base) ? galloc_size_of(base) : (size_t)0,
+                 (size_t)(rb.allocation_end - rb.allocation));
     }
 }
 
